@@ -214,7 +214,7 @@ package store
 //@   requires [not-read-only]{C14} !*roPtr()
 
 //@ func (d *dir) gcTicker()
-//@   requires [not-read-only]{C14} !*roPtr()
+//@   requires stable [not-read-only]{C14} !*roPtr()
 
 //@ -- the cleanup of a cached repository: collection only when the store is writable
 //@ func NewDir$1(key string, dr *dirRepo) (err error)
@@ -222,3 +222,26 @@ package store
 
 //@ func NewDir(conf config.Config, opts []Opts) (st Store)
 //@   requires invariant [dir-store-conf] conf.Storage.ReadOnly == roPtr() && roPtr() != nil && (fsWritable() <==> !*roPtr())
+
+//@ -- ------------------------------------------------------------------
+//@ -- C01 at the store level: an upload object feeds every byte it accepts to the file (or buffer) AND to the hash of
+//@ -- its current digester, so the digest it reports and stores the blob under is the digest of what it holds.
+//@ -- Representation invariant of the two upload types: the writer is the tee of exactly these two.
+//@ pred dirUploadInv(u) := u.d != nil && (u.w != nil ==> teeA(u.w) == objOf(u.fh) && teeB(u.w) == hashOf(u.d))
+//@ pred memUploadInv(u) := u.d != nil && u.buffer != nil && u.w != nil && teeA(u.w) == objOf(u.buffer) && teeB(u.w) == hashOf(u.d)
+
+//@ funcs dirRepoUpload.* !dirRepoUpload.delete$1
+//@   requires invariant [tee] dirUploadInv(recv)
+//@   ensures [tee-kept]{C01} dirUploadInv(recv)
+
+//@ funcs memRepoUpload.*
+//@   requires invariant [tee] memUploadInv(recv)
+//@   ensures [tee-kept]{C01} memUploadInv(recv)
+
+//@ -- where the objects are built
+//@ func (dr *dirRepo) BlobCreate(opts []BlobOpt) (bc BlobCreator, sessionID string, err error)
+//@   assert [new-upload-tee]{C01} before call Cache.Set#1: dirUploadInv(bc)
+//@   assert [upload-only-when-writable]{C14} before call Cache.Set#1: fsWritable()
+
+//@ func (mr *memRepo) BlobCreate(opts []BlobOpt) (bc BlobCreator, sessionID string, err error)
+//@   assert [new-upload-tee]{C01} before call Cache.Set#1: memUploadInv(bc)
